@@ -13,6 +13,7 @@ def run(tier, seed, replay):
     n = 1500 if tier == "quick" else 12000
     texts = [tg.program(rng) for _ in range(n)]
     texts += tg.token_mutations(rng)
+    texts += tg.edge_texts()
     texts += tg.repo_corpus()
     texts += [tg.mutate_chars(rng, tg.program(rng, nlines=rng.randrange(1, 5)), rng.choice([1, 1, 1, 2, 3])) for _ in range(n)]
     texts += tg.unicode_strings(rng, n // 3)
